@@ -91,7 +91,7 @@ RegTimer ==
      THEN /\ status' = [status EXCEPT ![Ev.id] = "pending"]
           /\ info' = [info EXCEPT ![Ev.id] = [NoInfo EXCEPT !.kind = "timer", !.orig = <<Ev.ts, Ev.tu>>,
                                                             !.dl = TAdd(clock, <<Ev.ts, Ev.tu>>)]]
-     ELSE Ev.inj > 0 /\ UNCHANGED <<status, info>>
+     ELSE (Ev.inj > 0 \/ (Has("cf") /\ Ev.cf > 0)) /\ UNCHANGED <<status, info>>    \* refused allocation, or the clock could not be read
   /\ UNCHANGED <<imm, slot, polled, errhup, kready, clock, intr>> /\ UNCHANGED RunVars
 \* ENOENT exactly when nothing is registered there
 CancelSock ==
